@@ -121,6 +121,12 @@ def gen_cases(ctx):
         A = components_graph(rng, sizes)
         w = np.array(graphs.weights(rng, len(A)))
         out.append((A, w, sizes))
+    if ctx.scale > 1 or ctx.tier == "thorough":
+        # components so large that the worker bound (size-1)*10, not 0.1*N,
+        # decides the number of chunks
+        for s in (105, 113, 230):
+            A = components_graph(rng, [s])
+            out.append((A, np.array(graphs.weights(rng, s)), [s]))
     return out
 
 
@@ -167,7 +173,8 @@ def run_case(ctx, A, w, sizes, chunk_terms=None):
                 netmod.mpi = real
             for silence in ([0, 1, 2, 3] if ctx.tier == "thorough"
                             else [rng.choice([0, 1]), rng.choice([2, 3])]):
-                workers = rng.choice([1, 2, 3, n + 1])
+                workers = rng.choice([1, 2, 3, n + 1]) if n < 100 \
+                    else rng.choice([1, 2])
                 mode = rng.choice(["random", "argmin", "one"])
                 fake = FakeMPI(workers, rng, mode)
                 ctx.stat("workers=%s" % (workers if workers < 4 else "N+1"))
